@@ -165,6 +165,11 @@ if os.path.exists("/tmp/confirm3-summary.log"):
 ALL = dict(RESULTS)
 ALL.update(RESULTS2)
 ALL.update(RESULTS3)
+# The sub-agents' output directories lived under /tmp and were removed at the end of the campaign:
+# /verif/seeded/ is the record. Without them this script must not touch it.
+if not all(os.path.isdir(d) for d in ("/tmp/seedout", "/tmp/seedout2", "/tmp/seedout3")):
+    print("mkseeded: the source directories /tmp/seedout{,2,3} are gone; /verif/seeded is left as it is")
+    sys.exit(0)
 rows = []
 for sid in sorted(ALL):
     if "-r3-" in sid:
